@@ -23,7 +23,7 @@ static const struct spec SPECS[] = {
 	{ QB_LOG_FILTER_FUNCTION, "f3,f1" }, { QB_LOG_FILTER_FORMAT, "fmt" },
 	{ QB_LOG_FILTER_FILE_REGEX, "^b" }, { QB_LOG_FILTER_FUNCTION_REGEX, "f[23]" }, { QB_LOG_FILTER_FORMAT_REGEX, "x$" },
 };
-static int seeded;
+static int seeded, high_slots;
 static int nspecs;            /* 5 without regex, 8 with */
 static const uint8_t LOWS[] = { LOG_INFO, LOG_DEBUG };
 #define NT 2
@@ -124,7 +124,15 @@ static void run(void)
 	qb_log_init("vp", LOG_USER, LOG_EMERG);
 	qb_log_ctl(QB_LOG_SYSLOG, QB_LOG_CONF_ENABLED, QB_FALSE);
 	memset(T, 0, sizeof T); ntags = 0; lineno_next = 200;
-	for (t = 0; t < NT; t++) open_target(t);
+	if (high_slots) {
+		/* every dynamic slot in use: fillers that are never enabled take the lower ones, the targets under test get the
+		   last slots of the table (the delivery loops are bounded by the highest slot in use) */
+		int nfill = QB_LOG_TARGET_MAX - QB_LOG_TARGET_DYNAMIC_START - NT, k;
+		for (k = 0; k < nfill; k++) if (qb_log_custom_open(logger, closer, NULL, NULL) < 0) vp_fail("custom_open of filler target %d failed", k);
+	}
+	/* with the fillers in place target 0 (the one the seeded start states enable) gets the very last slot */
+	for (t = 0; t < NT; t++) open_target(high_slots ? NT - 1 - t : t);
+	if (high_slots && T[0].id != QB_LOG_TARGET_MAX - 1) vp_broken("target 0 did not get the last slot (%d)", T[0].id);
 	if (seeded) {
 		/* non-initial start states: target 0 already enabled with a catch-all filter (tags become observable at once),
 		   optionally with every call site already executed once (sites that exist before the rules change) */
@@ -262,6 +270,7 @@ static void init(void)
 	with_tags = (int)vp_param("tags", 1, 1);
 	with_close = (int)vp_param("close_reopen", 1, 1);
 	seeded = (int)vp_param("seeded_starts", 1, 1);
+	high_slots = (int)vp_param("last_slots", 0, 0);
 }
 
 int main(int argc, char **argv)
